@@ -488,11 +488,17 @@ def run(tier: str) -> int:
         o.sample({"simulated_history": maximal[0]})
     # ---- V
     run_v(o, 300 if thorough else 40, 40)
+    # the repository's own test-suite as a trace source (harness/suitetrace.py)
+    import suitetrace
+    common.with_engine(o, "suite", lambda: suitetrace.extend(o, tier, PID))
     return o.finish()
 
 
 def replay(path: str) -> int:
     v = json.loads(Path(path).read_text())
+    if v.get("case", {}).get("engine") == "suite":
+        import suitetrace
+        return suitetrace.replay(path)
     case = v["case"]
     o = Outcome(PID, "quick")
     if case["kind"] == "V":
